@@ -300,8 +300,12 @@ func runStream(c *Case) lib.Result {
 	if obs.Closed != nil {
 		closed = fmt.Sprintf("(Some %s)", lib.CoqBool(*obs.Closed))
 	}
-	res.CoqTerm = fmt.Sprintf("CaseStream %s %d%%nat\n  [%s]%%nat\n  %s %s", nlist(src), n,
-		strings.Join(acts, "; "), nlistlist(obs.Received), closed)
+	var locals []int
+	for i := 1 + len(c.Globals); i <= c.NH+len(c.Globals); i++ {
+		locals = append(locals, i)
+	}
+	res.CoqTerm = fmt.Sprintf("CaseStream %s %s %s %s\n  %s [%s]%%nat\n  %s %s", nlist(c.Globals), nlist(locals),
+		timingName[c.T], nlist(order), nlist(src), strings.Join(acts, "; "), nlistlist(obs.Received), closed)
 	res.Nontrivial = n >= 2 && c.Src >= 1 && nRecv >= 2
 	src0 := "array"
 	if c.Pipe {
